@@ -1,8 +1,149 @@
 import PymtlVerif.Driver.Sexp
-/-! Handler `bstruct` (stub: not built yet). -/
-namespace PV.Driver.BitStruct
-open PV
+import PymtlVerif.Model.BitStruct
+/-!
+Handler `bstruct`: executable face of `Model/BitStruct.lean` for the C06 correspondence check.
 
-def handle (_args : List Sexp) : Option String := none
+Type shapes:  `(b n)` | `(s T1 T2 …)` (struct, fields in declaration order) | `(a k T)` (`[T]*k`).
+Values:       `(b n v)` | `(s v1 v2 …)` | `(a v0 v1 …)` (element 0 first).
+Replies print values as hash keys: `(b n v)` for a leaf, `(t k1 k2 …)` for a struct or a list.
+
+Requests
+* `pack T v`      → `nbits (ok w p | err Class) ((n v)…) ((off w)…) ((off w)…)`
+                     = cls.nbits, to_bits(), leaves, absolute leaf offsets, top-level field offsets
+* `unpack T n b`  → `(ok key) (ok w p | err Class) ((n v)…)` | `(err Class)`   (from_bits, then to_bits of the result)
+* `eq same T v w` → `e p`   (`==` result, packed values equal)
+* `script ((cls T)…) (op…)` → one snapshot per op: `((slot v…)…)` visible leaf values of every slot, or `(err Class)` (stops)
+    ops: `(new slot cls v)` `(clone slot src)` `(alias slot src)` `(imatmul dst src)` `(ilshift dst src)`
+         `(flip slot)` `(wleaf slot k x)` (`leaf k @= x`) `(nbleaf slot k x)` (`leaf k <<= x`)
+-/
+namespace PV.Driver.BitStruct
+open PV PV.BitStruct
+
+partial def ty? : Sexp → Option Ty
+  | .list [.atom "b", n] => do some (.bits (← n.nat?))
+  | .list [.atom "a", k, t] => do some (.arr (← k.nat?) (← ty? t))
+  | .list (.atom "s" :: fs) => do
+      let ts ← fs.mapM ty?
+      some (ts.foldr Ty.pair Ty.unit)
+  | _ => none
+
+partial def val? : Sexp → Option Val
+  | .list [.atom "b", n, v] => do some (.bits (← n.nat?) (← v.nat?))
+  | .list (.atom "s" :: fs) => do
+      let vs ← fs.mapM val?
+      some (vs.foldr Val.pair Val.unit)
+  | .list (.atom "a" :: xs) => do
+      let vs ← xs.mapM val?
+      some (vs.foldr Val.acons Val.anil)
+  | _ => none
+
+def pairsStr (xs : List (Nat × Nat)) : String :=
+  "(" ++ " ".intercalate (xs.map fun p => s!"({p.1} {p.2})") ++ ")"
+
+def keyStr (v : Val) : String :=
+  hashV (fun n x => s!"(b {n} {x})") (fun ks => "(t" ++ String.join (ks.map (" " ++ ·)) ++ ")") v
+
+def rStr : PV.Bits.R → String
+  | .ok b => s!"(ok {b.n} {b.v})"
+  | .error e => s!"(err {e.pyClass})"
+
+structure St where
+  heap : Heap
+  slots : List (Nat × Nat × Inst)      -- slot, class id, instance
+
+def St.get (s : St) (k : Nat) : Option (Nat × Inst) :=
+  (s.slots.find? (·.1 == k)).map (·.2)
+
+def St.set (s : St) (k cls : Nat) (i : Inst) : St :=
+  { s with slots := (k, cls, i) :: s.slots.filter (·.1 != k) }
+
+def snapshot (s : St) : String :=
+  let sorted := s.slots.mergeSort (fun a b => a.1 ≤ b.1)
+  "(" ++ " ".intercalate (sorted.map fun (k, _, i) =>
+    "(" ++ toString k ++ String.join ((leafVals (read s.heap i)).map fun p => " " ++ toString p.2) ++ ")") ++ ")"
+
+def liftB : Except PV.Bits.Err α → Except Err α
+  | .ok a => .ok a
+  | .error e => .error (.bits e)
+
+/-- one op; `none` = malformed request -/
+def step (classes : List (Nat × Ty)) (s : St) : Sexp → Option (Except Err St)
+  | .list [.atom "new", k, c, v] => do
+      let k ← k.nat?; let c ← c.nat?; let v ← val? v
+      let T ← classes.lookup c
+      if !hasTy v T then none
+      let r := build s.heap v
+      some (.ok ({ s with heap := r.1 }.set k c r.2))
+  | .list [.atom "clone", k, j] => do
+      let k ← k.nat?; let (c, i) ← s.get (← j.nat?)
+      let r := clone s.heap i
+      some (.ok ({ s with heap := r.1 }.set k c r.2))
+  | .list [.atom "alias", k, j] => do
+      let k ← k.nat?; let (c, i) ← s.get (← j.nat?)
+      some (.ok (s.set k c i))
+  | .list [.atom "imatmul", d, j] => do
+      let (cd, id) ← s.get (← d.nat?); let (cs, is) ← s.get (← j.nat?)
+      let T ← classes.lookup cd
+      some ((imatmul T (cd == cs) s.heap id is).map fun h => { s with heap := h })
+  | .list [.atom "ilshift", d, j] => do
+      let (cd, id) ← s.get (← d.nat?); let (cs, is) ← s.get (← j.nat?)
+      let T ← classes.lookup cd
+      some ((ilshift T (cd == cs) s.heap id is).map fun h => { s with heap := h })
+  | .list [.atom "flip", d] => do
+      let (_, id) ← s.get (← d.nat?)
+      some ((flip s.heap id).map fun h => { s with heap := h })
+  | .list [.atom "wleaf", d, k, x] => do
+      let (_, id) ← s.get (← d.nat?)
+      let c ← leafId id (← k.nat?)
+      let x ← x.int?
+      some ((liftB (PV.Bits.imatmul (s.heap.cell c).cur (.int x))).map fun b =>
+        { s with heap := s.heap.upd c { (s.heap.cell c) with cur := b } })
+  | .list [.atom "nbleaf", d, k, x] => do
+      let (_, id) ← s.get (← d.nat?)
+      let c ← leafId id (← k.nat?)
+      let x ← x.int?
+      some ((liftB (PV.Bits.ilshift (s.heap.cell c) (.int x))).map fun r =>
+        { s with heap := s.heap.upd c r })
+  | _ => none
+
+def runScript (classes : List (Nat × Ty)) : St → List Sexp → List String → Option (List String)
+  | _, [], acc => some acc.reverse
+  | s, op :: ops, acc =>
+    match step classes s op with
+    | none => none
+    | some (.error e) => some (s!"(err {e.pyClass})" :: acc).reverse
+    | some (.ok s') => runScript classes s' ops (snapshot s' :: acc)
+
+def cls? : Sexp → Option (Nat × Ty)
+  | .list [c, t] => do some (← c.nat?, ← ty? t)
+  | _ => none
+
+def handle (args : List Sexp) : Option String :=
+  match args with
+  | [.atom "pack", t, v] => do
+      let T ← ty? t; let x ← val? v
+      if !hasTy x T then none
+      let fields := (List.range (fieldTys T).length).map fun i =>
+        (fieldOff T i, ((fieldTy T i).map Ty.width).getD 0)
+      some s!"{nbitsPy T} {rStr (toBitsPy x)} {pairsStr (leafVals x)} {pairsStr (leafOffs T 0)} {pairsStr fields}"
+  | [.atom "unpack", t, n, b] => do
+      let T ← ty? t; let n ← n.nat?; let b ← b.nat?
+      if b ≥ 2 ^ n then none
+      match fromBitsPy T ⟨n, b⟩ with
+      | .error e => some s!"(err {e.pyClass})"
+      | .ok v => some s!"(ok {keyStr v}) {rStr (toBitsPy v)} {pairsStr (leafVals v)}"
+  | [.atom "eq", same, t, v, w] => do
+      let T ← ty? t; let x ← val? v; let y ← val? w
+      if !(hasTy x T && hasTy y T) then none
+      some s!"{b2s (eqCls (← same.bool?) x y)} {b2s ((toBits x).2 == (toBits y).2)}"
+  | [.atom "key", t, v] => do
+      let T ← ty? t; let x ← val? v
+      if !hasTy x T then none
+      some (keyStr x)
+  | [.atom "script", .list cs, .list ops] => do
+      let classes ← cs.mapM cls?
+      let out ← runScript classes ⟨Heap.empty, []⟩ ops []
+      some (" ".intercalate out)
+  | _ => none
 
 end PV.Driver.BitStruct
